@@ -5,8 +5,6 @@ package main
 
 import (
 	"fmt"
-	"os"
-	"runtime/pprof"
 
 	"verif/engine/hist"
 )
@@ -241,11 +239,6 @@ func loadOps() []op {
 }
 
 func main() {
-	if p := os.Getenv("VERIF_C13_PROF"); p != "" {
-		f, _ := os.Create(fmt.Sprintf("%s.%d", p, os.Getpid()))
-		pprof.StartCPUProfile(f)
-		defer pprof.StopCPUProfile()
-	}
 	ab := [][2]string{{"g1", "a"}, {"g1", "b"}}
 	aba := [][2]string{{"g1", "a"}, {"g1", "b"}, {"g2", "a"}}
 	abab := [][2]string{{"g1", "a"}, {"g1", "b"}, {"g2", "a"}, {"g2", "b"}}
@@ -262,6 +255,7 @@ func main() {
 			{Name: "override/2keys", Tiers: "quick", Depth: 3, NewModel: overrideScope([][2]string{{"g1", "a"}, {"g2", "a"}}, few[:3], []int{1}, false)},
 			{Name: "after-reject", Tiers: "quick", Depth: 3, NewModel: overrideScope([][2]string{{"g1", "a"}}, few[:2], []int{1}, true)},
 			{Name: "multi", Tiers: "quick", Depth: 2, NewModel: func() hist.Model { return newModel(multiOps(pool, false)) }},
+			{Name: "multi/3pool", Tiers: "quick", Depth: 3, NewModel: func() hist.Model { return newModel(multiOps([]rspec{rA, rAB, rD}, false)) }},
 			{Name: "load", Tiers: "quick", Depth: 3, NewModel: load},
 
 			{Name: "ranges/2rules@5", Tiers: "thorough", Depth: 5, NewModel: rangesScope(ab, vll)},
